@@ -48,6 +48,7 @@ func runProperty(id, tier string, seed int64, repo, verif string, quiet bool) (c
 		fmt.Println("cannot read known findings:", err)
 		return 1
 	}
+	knownGlobal = known
 	var r *Report
 	defer func() {
 		if x := recover(); x != nil {
